@@ -346,10 +346,13 @@ impl PublishBuilder {
             self.packet,
             Some(payload),
         );
-        // releases the packet if this future is dropped after PUBREC has been received
-        let received = PublishReceived { packet_id: Some(idx), shared: self.shared };
+        // releases the packet if this future is dropped after PUBREC has been received,
+        // packet that has not been sent must not release other packet with the same id
+        let shared = self.shared;
+        let result = rx.map(|rx| (rx, PublishReceived { packet_id: Some(idx), shared }));
         async move {
-            rx?.await.map(move |_| received).map_err(|_| SendPacketError::Disconnected)
+            let (rx, received) = result?;
+            rx.await.map(move |_| received).map_err(|_| SendPacketError::Disconnected)
         }
     }
 
